@@ -25,7 +25,7 @@ func init() {
 			"(7) in the DFS, a device is recorded only after the availability test for its kind (IsAllocated and the local set for exclusive devices, checkCapacity for shared ones) and the counter test, and every failing exit after recording undoes it.",
 		NotCovered: []string{
 			"the allocator's exclusivity / capacity / counter arithmetic across superposed instance types (value-level; not decidable by this technique)",
-			"that checkCapacity / checkCounters / pessimistic-max computations are numerically right",
+			"that checkCapacity / checkCounters computations are numerically right (of the pessimistic maximum only the direction of the comparison is decided)",
 			"reservation leaks (a dropped NodeClaim keeps its reservations) — under-use, not over-commit",
 		},
 		Rules: c17Rules,
@@ -154,6 +154,18 @@ func c17Rules(tier string) []Rule {
 
 		// ---- (6) DRA: tentative evaluation is read-only, commits are confined
 		core.Custom{ID: "C17.CONE1", Kind: "CONE", Run: c17ReadOnlyCones},
+		// the in-flight consumption of a shared device is the worst case over a NodeClaim's instance types: an aggregated
+		// entry is replaced only when absent or when the new quantity is strictly larger (never by a smaller one)
+		DOM{ID: "C17.DOM10", Fn: "scheduling/dynamicresources.pessimisticCapacityMax", Sink: `^mapupdate phi\(makemap<map\[k8s\.io/api/resource/v1\.QualifiedName\]apim/api/resource\.Quantity>\|.*\] = \(apim/api/resource\.Quantity\)\.DeepCopy\(`, Gates: gates(
+			G(`-^phi\(makemap<map\[k8s\.io/api/resource/v1\.QualifiedName\]apim/api/resource\.Quantity>\|.*\]#1$`,
+				`+^0 < \(\*apim/api/resource\.Quantity\)\.Cmp\(next\(range\(.*\)\)#2, phi\(makemap<`,
+				`+^\(\*apim/api/resource\.Quantity\)\.Cmp\(phi\(makemap<.*, next\(range\(.*\)\)#2\) < 0$`),
+		)},
+		core.Custom{ID: "C17.PROV8", Kind: "PROV", Run: func(w *core.World, id string) []core.Result {
+			// commit and release both charge the difference of the pessimistic maximum before and after
+			rs := core.InstrPresent(w, id, "PROV", "(*scheduling/dynamicresources.AllocationTracker).commitCapacity", `^call scheduling/dynamicresources\.pessimisticCapacityMax\(`, 2, "commit compares the worst case before and after")
+			return append(rs, core.InstrPresent(w, id, "PROV", "(*scheduling/dynamicresources.AllocationTracker).releaseCapacity", `^call scheduling/dynamicresources\.pessimisticCapacityMax\(`, 2, "release compares the worst case before and after")...)
+		}},
 		core.Custom{ID: "C17.WSET2", Kind: "WSET", Run: c17TrackerWriters},
 		core.Custom{ID: "C17.PROV7", Kind: "PROV", Run: func(w *core.World, id string) []core.Result {
 			rs := core.InstrPresent(w, id, "PROV", nc+"Add", `^call iface:\(scheduling/dynamicresources\.Allocation\)\.Commit\(\$7\.Allocation\)$`, 1, "NodeClaim.Add commits the allocation CanAdd produced")
